@@ -282,6 +282,26 @@ class CFG:
                 st.append(s)
         return False
 
+    def control_deps(self, n: Node) -> List[Tuple[Node, str]]:
+        """Dominating test nodes d with the label L such that every path d -> n
+        leaves d through its L edge (n is confined to that side of the test)."""
+        out: List[Tuple[Node, str]] = []
+        for i in self.dominators().get(n.id, ()):
+            d = self.nodes[i]
+            if d is n or d.kind != "test" or d.cond is None:
+                continue
+            sides = {}
+            for lab in ("T", "F"):
+                ss = [s for s, l in d.succ if l == lab]
+                sides[lab] = any(s is n or self.paths_avoiding(s, n, lambda y: y is d) for s in ss) if ss else False
+                if any(s is n for s in ss):
+                    sides[lab] = True
+            if sides["T"] and not sides["F"]:
+                out.append((d, "T"))
+            elif sides["F"] and not sides["T"]:
+                out.append((d, "F"))
+        return out
+
     def in_loop(self, n: Node) -> bool:
         """n lies on a cycle of the graph."""
         seen: Set[int] = set()
